@@ -25,7 +25,8 @@ func init() {
 			"Does NOT decide that an inlined copy and a call behave alike in the VM, nor uniqueness of the random loop ids." +
 			" Round 4: (R10) no address of a per-loop variable is kept across iterations (go 1.19 loop-variable semantics)." +
 			" (R11) the identity of a subroutine activation is an offset-derived instruction field (same rule as C01.R10)." +
-			" Round 5: (R12) group numbering restarts with every regexp literal.",
+			" Round 5: (R12) group numbering restarts with every regexp literal." +
+			" Round 6: (R13) steering instructions cannot fail; (R14) the command's own names win over stored definitions; (R15) every field of a VM record that is read is also written somewhere.",
 		Assumptions: commonAssumptions,
 		Rules: []RuleFn{
 			{Name: "C13.R1", Run: func(c *Ctx) { ruleAdjustPure(c, "C13.R1") }},
@@ -38,6 +39,9 @@ func init() {
 			}},
 			{Name: "C13.R11", Run: func(c *Ctx) { ruleActivationIdentity(c, "C13.R11") }},
 			{Name: "C13.R12", Run: func(c *Ctx) { ruleGroupNumbering(c, "C13.R12", false) }},
+			{Name: "C13.R13", Run: func(c *Ctx) { ruleSteeringInstructionsCannotFail(c, "C13.R13") }},
+			{Name: "C13.R14", Run: func(c *Ctx) { ruleScopeBeforeDefinitions(c, "C13.R14") }},
+			{Name: "C13.R15", Run: func(c *Ctx) { ruleRecordFieldsReadAreWritten(c, "C13.R15") }},
 			{Name: "C13.R3", Run: func(c *Ctx) { ruleProgramReadOnly(c, "C13.R3") }},
 			{Name: "C13.R4", Run: func(c *Ctx) { ruleCommandScope(c, "C13.R4") }},
 			{Name: "C13.R6", Run: func(c *Ctx) { ruleAttemptFresh(c, "C13.R6") }},
@@ -50,7 +54,8 @@ func init() {
 			"Not decided: per-instruction semantics, priority order of alternatives, what each jump target means to the VM." +
 			" Round 4: (R8) with every read at the current offset returning \"\" and the offset equal to reader.Size(), no primitive reaches CONSUME (helpers that consume for their callers hand the obligation on; CONSUME(reader.Size()) and progress-tested CONSUMEs exempt); (R9) the zero-width cut is control-dependent on `iteration >= MinLoops`." +
 			" (R10) the identity of a subroutine activation is an offset-derived instruction field." +
-			" Round 5: (R11) the empty text matches with zero width; (R12) Reader.Read/ReadAt return nothing or exactly the bytes asked for; (R13) the generator does not reorder AST items; (R14) renumbering passes cover every program-counter field.",
+			" Round 5: (R11) the empty text matches with zero width; (R12) Reader.Read/ReadAt return nothing or exactly the bytes asked for; (R13) the generator does not reorder AST items; (R14) renumbering passes cover every program-counter field." +
+			" Round 6: (R15) the handlers of steering instructions (call, jump, branch, capture/subroutine/not-in markers) cannot reach BACKTRACK; (R16) a MatchLiteral carries the Value, Not and Caseless of one AST string node unchanged.",
 		Assumptions: commonAssumptions,
 		Rules: []RuleFn{
 			{Name: "C01.R1", Run: func(c *Ctx) {
@@ -77,6 +82,8 @@ func init() {
 			{Name: "C01.R12", Run: func(c *Ctx) { ruleReaderAllOrNothing(c, "C01.R12") }},
 			{Name: "C01.R13", Run: func(c *Ctx) { ruleNoReorderingInGenerator(c, "C01.R13") }},
 			{Name: "C01.R14", Run: func(c *Ctx) { ruleRenumberingComplete(c, "C01.R14") }},
+			{Name: "C01.R15", Run: func(c *Ctx) { ruleSteeringInstructionsCannotFail(c, "C01.R15") }},
+			{Name: "C01.R16", Run: func(c *Ctx) { ruleLiteralInstructionIsTheLiteral(c, "C01.R16") }},
 			{Name: "C01.R3", Run: func(c *Ctx) { ruleScanDiscipline(c, "C01.R3"); ruleAttemptFresh(c, "C01.R3b") }},
 		},
 	})
@@ -85,7 +92,8 @@ func init() {
 		Explanation: "Decides the structural conditions that make reported variables the bindings of the successful path: (R1) snapshot isolation - every reference-typed component of the VM state that is mutated in place anywhere in package engine (computed: methods that write through their receiver, and the fields they are invoked on) is freshly allocated, deeply, in the value returned by Copy; CHECKPOINT pushes such a copy; (R2) STARTVAR records len(currentMatch), ENDVAR binds currentMatch[startOffset:] on every returning path, MATCHVAR matches the bound text unchanged; (R3) every instruction handler neither stores through nor calls a mutating method on its incoming state and returns its Copy; (R4) every attempt starts from a freshly created state. " +
 			"Scoped exclusions: the saved snapshots reachable only through `backtrack` (LIFO argument, stated) and the shared reader. Does NOT decide which binding is the most recent one when a name is bound repeatedly, nor named-loop nesting." +
 			" Round 4: (R7) the restore used by BACKTRACK assigns every field of the state that matching writes, from the same field of the checkpoint; (R8) a loop record's bindings are indexed with that record's own iteration counter." +
-			" Round 5: (R9) the empty text matches with zero width; (R10) a variable reference is not compiled to a literal.",
+			" Round 5: (R9) the empty text matches with zero width; (R10) a variable reference is not compiled to a literal." +
+			" Round 6: (R11) a stored definition is read only where the lookup in the command's own scope has missed.",
 		Assumptions: commonAssumptions,
 		Rules: []RuleFn{
 			{Name: "C02.R1", Run: func(c *Ctx) { ruleSnapshotIsolation(c, "C02.R1") }},
@@ -97,6 +105,7 @@ func init() {
 			{Name: "C02.R8", Run: func(c *Ctx) { ruleIterationKeyFromSameRecord(c, "C02.R8") }},
 			{Name: "C02.R9", Run: func(c *Ctx) { ruleEmptyTextMatches(c, "C02.R9") }},
 			{Name: "C02.R10", Run: func(c *Ctx) { ruleReferenceNotFolded(c, "C02.R10") }},
+			{Name: "C02.R11", Run: func(c *Ctx) { ruleScopeBeforeDefinitions(c, "C02.R11") }},
 		},
 	})
 	register(&Property{
@@ -123,7 +132,8 @@ func init() {
 			"Does NOT decide what a transform computes (C11) nor the order of items beyond program order." +
 			" Round 4: (R10) the built-in matchNumber derives from Match.MatchNumber." +
 			" (R11) with every status read fixed to the one set by `return`, no loop that runs process statements goes round again." +
-			" Round 5: (R12) captures are bound as strings for process code.",
+			" Round 5: (R12) captures are bound as strings for process code." +
+			" Round 6: (R13) with every status read fixed to NEXT the loop executor cannot return: a `loop` ends only by break or return.",
 		Assumptions: commonAssumptions,
 		Rules: []RuleFn{
 			{Name: "C05.R1", Run: func(c *Ctx) {
@@ -140,6 +150,7 @@ func init() {
 			{Name: "C05.R10", Run: func(c *Ctx) { ruleMatchNumberBuiltin(c, "C05.R10") }},
 			{Name: "C05.R11", Run: func(c *Ctx) { ruleReturnStopsStatements(c, "C05.R11") }},
 			{Name: "C05.R12", Run: func(c *Ctx) { ruleCapturesAreStrings(c, "C05.R12") }},
+			{Name: "C05.R13", Run: func(c *Ctx) { ruleProcessLoopEndsOnlyOnRequest(c, "C05.R13") }},
 			{Name: "C05.R5", Run: func(c *Ctx) { rulePlumbing(c, "C05.R5") }},
 			{Name: "C05.R6", Run: func(c *Ctx) { ruleItemKinds(c, "C05.R6") }},
 		},
@@ -170,7 +181,8 @@ func init() {
 			"Does NOT decide stack depth on deeply nested input nor memory/time of large unrolled loops (`exactly 1000000000 'a'`)." +
 			" Round 4: (R11) every mutex locked in the compile path is released on every path out of the function; (R12) variable indexes into fixed-size tables are bounded by the table length." +
 			" Round 5: (R13) getTokens stops on every EOF token." +
-			" Round 6: (R14) every integer division between source text and program has a divisor that is a non-zero constant or was tested against zero.",
+			" Round 6: (R14) every integer division between source text and program has a divisor that is a non-zero constant or was tested against zero." +
+			" (R15) no pointer that can be nil is converted to the error interface.",
 		Assumptions: append([]string{"tokens always ends in an EOF token and consumeIgnoreableTokens never steps past it (axioms A1, A2)", "bufio.Reader's end of input is sticky (A3)"}, commonAssumptions...),
 		Rules: []RuleFn{
 			{Name: "C08.R1", Run: func(c *Ctx) { ruleEOFWorld(c, "C08.R1") }},
@@ -196,13 +208,15 @@ func init() {
 			{Name: "C08.R12", Run: func(c *Ctx) { ruleArrayIndexBounded(c, "C08.R12", []string{"ast", "bytecode", "libvore", "ds"}) }},
 			{Name: "C08.R13", Run: func(c *Ctx) { ruleTokenListEndsAtEOF(c, "C08.R13") }},
 			{Name: "C08.R14", Run: func(c *Ctx) { ruleNoUnguardedDivision(c, "C08.R14") }},
+			{Name: "C08.R15", Run: func(c *Ctx) { ruleNoTypedNilError(c, "C08.R15") }},
 		},
 	})
 	register(&Property{
 		ID: "C06",
 		Explanation: "Decides the structural part of `replace writes the exact splice and each mode touches only its file`: (R1) the mode table of searchReplace - NEW opens only <file>+suffix for writing, OVERWRITE loads the original into memory before the truncating open of the file itself, NOTHING writes to memory; Run uses NOTHING and RunFiles forces NOTHING under -filenames; (R2) who may modify the file system: in the library only files.WriterFromFile opens for writing (called only by searchReplace) and RunFiles renames under processFilenames; nothing reachable from searchFind can write; (R3) the writer is opened with create|truncate|write; (R4) cursor pairing in the splice loop: the gap and the replacement are written at consecutive positions, the cursors advance by gap+len(replacement) and gap+len(match) on every path around the loop, the tail is copied, the writer is closed; (R5) every command searches a file through a reader opened for it in the same loop iteration, so a later command reads what an earlier one wrote. " +
 			"Does NOT decide the arithmetic itself (that gaps and values tile the input), short reads, or MemoryStream/OS write semantics." +
-			" Round 4: (R7) every Read([]byte) implementation in package files delivers len(p) bytes when it returns no error.",
+			" Round 4: (R7) every Read([]byte) implementation in package files delivers len(p) bytes when it returns no error." +
+			" Round 6: (R8) the match record is built from the counters and the consumed text (shared with C03).",
 		Assumptions: commonAssumptions,
 		Rules: []RuleFn{
 			{Name: "C06.R1", Run: func(c *Ctx) { ruleModeTable(c, "C06.R1") }},
@@ -211,13 +225,15 @@ func init() {
 			{Name: "C06.R5", Run: func(c *Ctx) { ruleReaderPerSearch(c, "C06.R5") }},
 			{Name: "C06.R6", Run: func(c *Ctx) { ruleReaderOffsetsAreFileOffsets(c, "C06.R6") }},
 			{Name: "C06.R7", Run: func(c *Ctx) { ruleFullReads(c, "C06.R7") }},
+			{Name: "C06.R8", Run: func(c *Ctx) { ruleRecordConstruction(c, "C06.R8") }},
 		},
 	})
 	register(&Property{
 		ID: "C07",
 		Explanation: "The equivalence of buffered file reading with in-memory reading over all sizes and seek/read histories is a property of the window arithmetic in BufferedFile.Seek/Read and is NOT decided. Decided: (R1) no read in package files turns end of input into a panic (io.EOF excluded, or at least one byte requested and available); (R2) each Reader constructor sets size to the length of what its contents deliver; (R3) Reader.Read is called only after a Seek on the same reader (axiom A5) and BufferedFile's methods never use the OS file cursor, only positioned ReadAt; (R4) every search gets a reader opened for it in the same loop iteration (no reader, with its buffered window and size, is kept across commands)." +
 			" Round 4: (R9) every Read([]byte) implementation in package files delivers len(p) bytes when it returns no error." +
-			" Round 5: (R10) Reader.Read/ReadAt return nothing or exactly the bytes asked for.",
+			" Round 5: (R10) Reader.Read/ReadAt return nothing or exactly the bytes asked for." +
+			" Round 6: (R11) no byte is converted to a string as a code point in files/engine; (R12) no address of a per-loop variable is kept.",
 		Assumptions: commonAssumptions,
 		Rules: []RuleFn{
 			{Name: "C07.R1", Run: func(c *Ctx) { ruleEOFNotAnError(c, "C07.R1") }},
@@ -230,6 +246,10 @@ func init() {
 			{Name: "C07.R8", Run: func(c *Ctx) { ruleReadOffsetsNonNegative(c, "C07.R8") }},
 			{Name: "C07.R9", Run: func(c *Ctx) { ruleFullReads(c, "C07.R9") }},
 			{Name: "C07.R10", Run: func(c *Ctx) { ruleReaderAllOrNothing(c, "C07.R10") }},
+			{Name: "C07.R11", Run: func(c *Ctx) { ruleNoByteToStringConversion(c, "C07.R11", []string{"files", "engine"}) }},
+			{Name: "C07.R12", Run: func(c *Ctx) {
+				ruleLoopVarAddressNotKept(c, "C07.R12", []string{"ast", "bytecode", "engine", "libvore", "files"})
+			}},
 		},
 	})
 	register(&Property{
@@ -237,7 +257,8 @@ func init() {
 		Explanation: "Decides, for everything reachable from Run/RunFiles, an inventory of panic-capable constructs each discharged by a named rule: (R1) explicit panics - fall-out of complete type switches / exhaustive enum switches, the evaluator's SHOULDN'T GET HERE panics by R2, or a frozen trusted table (VM invariants, operating-system failures); (R2) every operand-type cell the checker accepts has a non-panicking evaluator leaf; (R3) the flow-insensitive checker binds variable types monotonically; (R4) integer division has a tested divisor; (R5) instruction fetch is dominated by a program-counter bound test; (R6) reads at end of input; (R7) type assertions; (R8) results of Peek/Pop/Index are tested before dereference; (R9) readers are closed by the function that opened them and do not outlive their iteration; (R10) the VM-invariant panics of the trusted table rest on checkpoints being isolated snapshots: Copy gives every stack and map of a saved state its own storage (same rule as C02.R1); (R11) every Optional.GetValue is dominated by HasValue() on the same optional; (R12) the scan discipline on which the trusted `byte at the scan offset exists` panic rests. " +
 			"Does NOT decide index safety that depends on VM invariants (branch lists non-empty, capture offsets inside the match, jump targets in range) nor process loops that never end." +
 			" Round 4: (R15) variable indexes into fixed-size tables are bounded by the table length. (R16) the token kinds the list parser admits, the classes parse_character_class makes of them and GetMaxSize agree: no admitted class has a negative size." +
-			" Round 5: (R17) no allocation is sized by a number written in the program.",
+			" Round 5: (R17) no allocation is sized by a number written in the program." +
+			" Round 6: (R18) the handlers of steering instructions cannot fail; (R19) a listed directory entry is used as a file only behind an IsDir test; (R20) every replace mode has a writer (CONFIRM: known finding).",
 		Assumptions: commonAssumptions,
 		Rules: []RuleFn{
 			{Name: "C09.R1", Run: func(c *Ctx) {
@@ -308,6 +329,9 @@ func init() {
 			{Name: "C09.R15", Run: func(c *Ctx) { ruleArrayIndexBounded(c, "C09.R15", []string{"engine", "files", "ds", "algo"}) }},
 			{Name: "C09.R16", Run: func(c *Ctx) { ruleListedClassesHaveSize(c, "C09.R16") }},
 			{Name: "C09.R17", Run: func(c *Ctx) { ruleNoAllocationFromProgramNumbers(c, "C09.R17", []string{"engine", "ds", "files"}) }},
+			{Name: "C09.R18", Run: func(c *Ctx) { ruleSteeringInstructionsCannotFail(c, "C09.R18") }},
+			{Name: "C09.R19", Run: func(c *Ctx) { ruleListedEntriesAreFiles(c, "C09.R19") }},
+			{Name: "C09.R20", Run: func(c *Ctx) { ruleEveryModeHasWriter(c, "C09.R20") }},
 		},
 	})
 	register(&Property{
@@ -330,7 +354,8 @@ func init() {
 		Explanation: "Termination itself is NOT decided. Decided are the mechanisms that make it true: (R1) in matchStartLoop the zero-width check dominates every start of a further iteration, and on a zero-width iteration the only effect is BACKTRACK and return; the recorded start is only ever len(currentMatch); (R2) matchEndNotIn advances only when the offset changed across CONSUME; (R3) every instruction handler and every MATCH* primitive moves the state (NEXT/JUMP/RETURN/BACKTRACK/FAIL) on every returning path (must-analysis over the CFG, greatest fixpoint over the primitives); (R4) the outer scan advances (scan discipline); (R5) loop identity compares loop id and call depth; (R6) every loop inside an instruction handler that calls CONSUME has an exit that tests the offset against reader.Size() (directly or in every predicate the exit can call); R1 also requires every increment of the iteration counter to re-record the iteration start on all paths. " +
 			"Does NOT decide weakened-but-present guards, nor recursion that consumes nothing (excluded by the property)." +
 			" Round 4: (R9) nothing is consumed at the end of the input (same rule as C01.R8); (R10) with the body's status fixed to the one set by `return`/`break` the process-loop executor has no feasible cycle; R1 accepts a skipped zero-width check only on an edge where `iteration < MinLoops`." +
-			" Round 5: (R11) replacer handlers advance the program counter on every path; (R12) the loop-stack protocol (same rule as C01.R5).",
+			" Round 5: (R11) replacer handlers advance the program counter on every path; (R12) the loop-stack protocol (same rule as C01.R5)." +
+			" Round 6: (R13) the handlers of steering instructions cannot fail; (R14) relocation is applied to stored bodies only; (R15) a loop in a VM primitive that reads the input cannot be left un-leavable once the read answers \"\".",
 		Assumptions: commonAssumptions,
 		Rules: []RuleFn{
 			{Name: "C10.R1", Run: func(c *Ctx) { ruleZeroWidthGuard(c, "C10.R1") }},
@@ -345,6 +370,9 @@ func init() {
 			{Name: "C10.R10", Run: func(c *Ctx) { ruleProcessLoopEnds(c, "C10.R10") }},
 			{Name: "C10.R11", Run: func(c *Ctx) { ruleReplacerHandlersMove(c, "C10.R11") }},
 			{Name: "C10.R12", Run: func(c *Ctx) { ruleLoopProtocol(c, "C10.R12") }},
+			{Name: "C10.R13", Run: func(c *Ctx) { ruleSteeringInstructionsCannotFail(c, "C10.R13") }},
+			{Name: "C10.R14", Run: func(c *Ctx) { ruleRelocationScope(c, "C10.R14") }},
+			{Name: "C10.R15", Run: func(c *Ctx) { rulePrimitiveLoopsEndWithInput(c, "C10.R15") }},
 		},
 	})
 	register(&Property{
@@ -352,7 +380,8 @@ func init() {
 		Explanation: "Decides that the evaluator implements the documented operator/coercion table: (R1) for every documented cell the leaf of executeBinaryExpr, extracted by partial evaluation over the tag domain (operator x operand types), reads both operands through the accessor of the left operand's type, applies the documented Go operator and builds the documented result type; the oracle is the Type Coersion table of docs/language/LanguageDetails.md, parsed on every run; " +
 			"(R2) the nine coercion accessors compute the documented conversions; (R3) the Pratt parser's binding powers give the documented precedence levels and left associativity; (R4) not/head/tail. " +
 			"Does NOT decide strconv and Go operator semantics (trusted), nor integer overflow behaviour." +
-			" Round 4: (R6) `return` ends the process code (same rule as C05.R11).",
+			" Round 4: (R6) `return` ends the process code (same rule as C05.R11)." +
+			" Round 6: (R7) a `loop` ends only by break or return (shared with C05); (R8) a failed number conversion in the parser is a parse error on every path.",
 		Assumptions: append([]string{"the documentation table is the specification; a documented row with a coerced-number left operand denotes string-on-the-left with a number on the right"}, commonAssumptions...),
 		Rules: []RuleFn{
 			{Name: "C11.R1", Run: func(c *Ctx) { ruleEvaluatorTable(c, "C11.R1") }},
@@ -361,6 +390,8 @@ func init() {
 			{Name: "C11.R4", Run: func(c *Ctx) { ruleUnaryTable(c, "C11.R4") }},
 			{Name: "C11.R5", Run: func(c *Ctx) { ruleNoExpressionRewrites(c, "C11.R5") }},
 			{Name: "C11.R6", Run: func(c *Ctx) { ruleReturnStopsStatements(c, "C11.R6") }},
+			{Name: "C11.R7", Run: func(c *Ctx) { ruleProcessLoopEndsOnlyOnRequest(c, "C11.R7") }},
+			{Name: "C11.R8", Run: func(c *Ctx) { ruleNumberConversionErrorsPropagate(c, "C11.R8") }},
 		},
 	})
 	register(&Property{
@@ -387,7 +418,8 @@ func init() {
 		ID: "C14",
 		Explanation: "Equivalence with a regex engine is NOT decided (value-level; it is C01 plus this). Decided: the regex-specific translation tables and the numbering order - (R1) the quantifier table of parse_regexp_quantifier, extracted from the AstLoop literals and the character tests that control them (* + ? {m} {m,} {m,n}), and that the lazy marker applies to every quantifier; (R2) the atom table (^ $ . \\d \\D \\s \\S); (R3) a capturing group reads its number before its body is parsed (numbering by opening parenthesis)." +
 			" Round 4: (R6) the loop-stack protocol (same rule as C01.R5); (R7) no byte of a regexp literal is converted to a string as a code point; (R8) the scan discipline (same rule as C01.R3)." +
-			" Round 5: (R9) group numbering restarts per literal and every capturing group takes a number; (R10) the empty text matches with zero width; (R11) renumbering passes cover every program-counter field.",
+			" Round 5: (R9) group numbering restarts per literal and every capturing group takes a number; (R10) the empty text matches with zero width; (R11) renumbering passes cover every program-counter field." +
+			" Round 6: (R12) checkpoints are isolated snapshots; (R13) every attempt starts from a fresh state; (R14) a sequence of regexp terms ends at `|` as it ends at `)`.",
 		Assumptions: commonAssumptions,
 		Rules: []RuleFn{
 			{Name: "C14.R1", Run: func(c *Ctx) { ruleRegexQuantifiers(c, "C14.R1") }},
@@ -401,6 +433,9 @@ func init() {
 			{Name: "C14.R9", Run: func(c *Ctx) { ruleGroupNumbering(c, "C14.R9", true) }},
 			{Name: "C14.R10", Run: func(c *Ctx) { ruleEmptyTextMatches(c, "C14.R10") }},
 			{Name: "C14.R11", Run: func(c *Ctx) { ruleRenumberingComplete(c, "C14.R11") }},
+			{Name: "C14.R12", Run: func(c *Ctx) { ruleSnapshotIsolation(c, "C14.R12") }},
+			{Name: "C14.R13", Run: func(c *Ctx) { ruleAttemptFresh(c, "C14.R13") }},
+			{Name: "C14.R14", Run: func(c *Ctx) { ruleAlternationOfSequences(c, "C14.R14") }},
 		},
 	})
 	register(&Property{
@@ -408,7 +443,8 @@ func init() {
 		Explanation: "Decides the skip discipline that makes whitespace, comments and keyword case irrelevant: (R1) every token-kind test of the hand-written parser (comparison of tokens[i].TokenType with a kind other than WS/COMMENT, or a kind handed to a predicate helper) looks at an index that is the result of consumeIgnoreableTokens, is the function's own parameter (then every call site must pass a skipped index), or - for indexes returned by callees - whose callee summary says `skipped` (typestate over SSA with function summaries, greatest fixpoint); (R2) the expression-token filter drops exactly the kinds the skipper skips; (R3) keywords are matched on strings.ToLower of the whole lexeme and are spelled in lower case; (R4) if the lexer keeps a memory of tokens it produced and reads it back, every store into it is guarded by tests that exclude WS and COMMENT. " +
 			"A raw decision means: inserting a blank or a comment at that gap changes the branch taken. Does NOT decide the lexer's comment state machine nor equality of the resulting syntax trees." +
 			" Round 4: (R6) with the lexer state fixed to a comment state only arms reached because of the state (or end-of-input arms) stay reachable." +
-			" Round 5: (R7) a newline ends a line comment in each of its states; (R8) the first character of the block comment's end marker restarts the recognition from every recognition state (state and character fixed).",
+			" Round 5: (R7) a newline ends a line comment in each of its states; (R8) the first character of the block comment's end marker restarts the recognition from every recognition state (state and character fixed)." +
+			" Round 6: (R9) nothing Compile writes at package level survives into the next compilation unseen; (R10) the lexer's look-ahead is a Peek of a small constant and never depends on what is buffered.",
 		Assumptions: commonAssumptions,
 		Rules: []RuleFn{
 			{Name: "C15.R1", Run: func(c *Ctx) {
@@ -424,13 +460,16 @@ func init() {
 			{Name: "C15.R6", Run: func(c *Ctx) { ruleCommentStatesOwnTheirCharacters(c, "C15.R6") }},
 			{Name: "C15.R7", Run: func(c *Ctx) { ruleNewlineEndsLineComment(c, "C15.R7") }},
 			{Name: "C15.R8", Run: func(c *Ctx) { ruleBlockCommentMarkerRestarts(c, "C15.R8") }},
+			{Name: "C15.R9", Run: func(c *Ctx) { ruleGlobalsReinit(c, "C15.R9") }},
+			{Name: "C15.R10", Run: func(c *Ctx) { ruleLexerLookaheadFixed(c, "C15.R10") }},
 		},
 	})
 	register(&Property{
 		ID: "C16",
 		Explanation: "Decides the structural part of string-literal decoding: (R1) the lexer's push-back never exceeds what bufio.Reader can undo (capacity 1 while unread() relies on UnreadRune); (R2) the escape table of getEscapedRune, folded over every ASCII rune, is the documented one (n t r a b f v, identity otherwise); (R3) the double-quote and single-quote branches of the lexer are identical up to their state constants and quote character; (R4) IsHex accepts exactly the hex digits and HexToAscii parses base 16; (R5) read() hands out exactly the rune of one ReadRune call; (R6) an escape state lasts for one decision: every path out of the arm guarded by it continues in the string state it was entered from. " +
 			"Does NOT decide the state machine as a whole (that every byte string round-trips), only these necessary conditions." +
-			" Round 4: (R7) with the lexer state fixed to a string state only arms reached because of the state (or end-of-input arms) stay reachable; (R8) the builders of a literal's node read no package-level variable that Compile writes.",
+			" Round 4: (R7) with the lexer state fixed to a string state only arms reached because of the state (or end-of-input arms) stay reachable; (R8) the builders of a literal's node read no package-level variable that Compile writes." +
+			" Round 6: (R9) as C15.R9; (R10) as C15.R10; (R11) a MatchLiteral carries one AST literal unchanged.",
 		Assumptions: append([]string{"bufio.Reader.UnreadRune supports a single level of push-back (documented)"}, commonAssumptions...),
 		Rules: []RuleFn{
 			{Name: "C16.R1", Run: func(c *Ctx) { ruleUnreadDepth(c, "C16.R1") }},
@@ -440,12 +479,16 @@ func init() {
 			{Name: "C16.R6", Run: func(c *Ctx) { ruleEscapeStateOneChar(c, "C16.R6") }},
 			{Name: "C16.R7", Run: func(c *Ctx) { ruleStringStatesOwnTheirCharacters(c, "C16.R7") }},
 			{Name: "C16.R8", Run: func(c *Ctx) { ruleLiteralIndependentOfGlobals(c, "C16.R8") }},
+			{Name: "C16.R9", Run: func(c *Ctx) { ruleGlobalsReinit(c, "C16.R9") }},
+			{Name: "C16.R10", Run: func(c *Ctx) { ruleLexerLookaheadFixed(c, "C16.R10") }},
+			{Name: "C16.R11", Run: func(c *Ctx) { ruleLiteralInstructionIsTheLiteral(c, "C16.R11") }},
 		},
 	})
 	register(&Property{
 		ID: "C17",
 		Explanation: "Decides structural conditions of the JSON renderings: (R1) no type assertion in the rendering code is impossible or unguarded (a value whose every reaching definition has another dynamic type panics on every call); (R2) Match.MarshalJSON/Range.MarshalJSON emit exactly the documented keys, each from the like-named field, `replacement` control-dependent on Replacement.HasValue() only; (R3) every static type flowing into json.Marshal is JSON-safe (type closure through MakeInterface producers) and every MarshalJSON returns bytes produced by encoding/json; (R4) Json and FormattedJson marshal the receiver itself; (R5) what they return is the encoder's bytes converted to a string (through helpers, possibly trimmed) and nothing else - any other function applied to encoded JSON is reported. The JSON object may be a map or a struct with json tags. " +
-			"Does NOT decide encoding/json itself nor round-trip equality of values.",
+			"Does NOT decide encoding/json itself nor round-trip equality of values." +
+			" Round 6: (R6) nothing reachable from the renderings sorts a list of matches.",
 		Assumptions: append([]string{"encoding/json produces valid JSON for JSON-safe Go values and escapes arbitrary text"}, commonAssumptions...),
 		Rules: []RuleFn{
 			{Name: "C17.R1", Run: func(c *Ctx) { ruleTypeAssertions(c, "C17.R1", []string{"engine", "ds"}, 0) }},
@@ -453,6 +496,7 @@ func init() {
 			{Name: "C17.R3", Run: func(c *Ctx) { ruleJSONMarshalSafe(c, "C17.R3") }},
 			{Name: "C17.R4", Run: func(c *Ctx) { ruleJSONRenderings(c, "C17.R4") }},
 			{Name: "C17.R5", Run: func(c *Ctx) { ruleJSONTextUntouched(c, "C17.R5") }},
+			{Name: "C17.R6", Run: func(c *Ctx) { ruleRenderingKeepsOrder(c, "C17.R6") }},
 		},
 	})
 	register(&Property{
@@ -482,7 +526,8 @@ func init() {
 			"accessed without synchronisation by code reachable from Compile/CompileFile/(*Vore).Run/RunFiles; (R2/R3) run-time code never stores into the " +
 			"shared compiled program (bytecode/ast objects, *Vore); (R4) no go statements, unsafe, cgo, and every library call goes to an allow-listed goroutine-safe package. " +
 			"Under R1-R4 two calls share only read-only memory. Does NOT decide determinism of results beyond that (random loop ids are unobservable by design)." +
-			" Round 4: (R5) every mutex Lock is released on every path out of its function; (R6) what Compile writes at package level is re-initialised before it is used (same rule as C13.R5).",
+			" Round 4: (R5) every mutex Lock is released on every path out of its function; (R6) what Compile writes at package level is re-initialised before it is used (same rule as C13.R5)." +
+			" Round 6: (R7) the parser lock is not held while anything is read from the source.",
 		Assumptions: append([]string{"standard-library packages on the allow-list are goroutine-safe as documented"}, commonAssumptions...),
 		Rules: []RuleFn{
 			{Name: "C19.R1", Run: func(c *Ctx) { ruleGlobals(c, "C19.R1", c.apiRoots(), "Compile/CompileFile/(*Vore).Run/RunFiles") }},
@@ -490,6 +535,7 @@ func init() {
 				ruleLocksReleased(c, "C19.R5", []string{"ast", "bytecode", "engine", "libvore", "files"})
 			}},
 			{Name: "C19.R6", Run: func(c *Ctx) { ruleGlobalsReinit(c, "C19.R6") }},
+			{Name: "C19.R7", Run: func(c *Ctx) { ruleLockNotHeldAcrossReads(c, "C19.R7") }},
 			{Name: "C19.R2", Run: func(c *Ctx) { ruleProgramReadOnly(c, "C19.R2") }},
 			{Name: "C19.R4", Run: func(c *Ctx) { ruleLibraryCalls(c, "C19.R4") }},
 		},
